@@ -34,7 +34,7 @@ theorem parse_designators :
     obtain ⟨h1, h2, h3, h4⟩ := digit_not_special c hc
     have hnz : ¬ digitsVal (c :: cs) = 0 := by omega
     have hle : ¬ 18446744073709551615 < digitsVal (c :: cs) := by omega
-    simp only [parseJobId, parseTail, parseNonZeroUsize]
+    simp only [parseJobId, parseTail, parseNonZeroUsize, stripPlus]
     simp [h1, h2, h3, h4, hall, hnz, hle]
 
 /-- ★ what an operand resolves to, through the code path shared by `wait` (`search::resolve`),
